@@ -79,6 +79,10 @@ fn exec(a: &[String]) {
         text.push('\n');
         outf.write_all(text.as_bytes()).expect("write out");
     }
+    // destinations on the other filesystem are created under a per-process directory
+    for root in ["/var/tmp", "/dev/shm"] {
+        let _ = std::fs::remove_dir_all(std::path::Path::new(root).join(format!("cvh-x.{}", std::process::id())));
+    }
     if settle {
         // let background work of dropped async writers finish before the process goes away
         // (tokio: join the blocking pool; async-std: nothing to join, so poll the temp area)
